@@ -92,10 +92,19 @@ def draw_cfg(rng, profile=None):
         sampler['enlarge_per_dim'] = 1.1
     run = dict(
         f_live=rng.choice([0.01, 0.05, 0.1, 0.1, 0.2, 0.3]),
-        n_shell=rng.choice([1, 1, 1, n_batch, n_batch + 1]),
+        n_shell=rng.choice([1, 1, 1, n_batch, n_batch + 1, 3 * n_batch]),
         n_eff=rng.choice([0, 0, 30, 60, 120, 250]),
         discard_exploration=rng.random() < 0.4,
     )
+
+    if rng.random() < profile.get('p_long_sampling', 0.08):
+        # a long sampling phase: many batches from the same frozen bounds,
+        # so that their proposal caches are refilled several times
+        sampler['n_batch'] = rng.choice([20, 50])
+        sampler['n_live'] = rng.choice([30, 40])
+        run['n_eff'] = rng.choice([800, 1500, 2500])
+        run['f_live'] = rng.choice([0.2, 0.3])
+        run['n_shell'] = 1
 
     def pool_spec(p):
         if rng.random() >= p:
@@ -478,10 +487,12 @@ def execute(case, monitors=(), scratch=None, wall=None, keep_world=False):
     world = None
     old_handler = None
     if wall:
-        old_handler = signal.signal(signal.SIGALRM, _alarm)
-        # repeating: an alarm swallowed inside a callback (weakref, __del__)
-        # must fire again
-        signal.setitimer(signal.ITIMER_REAL, wall, 1.0)
+        # CPU time of this process, not wall time: whether a workload is
+        # discarded as too slow must not depend on the load of the machine.
+        # Repeating: an alarm swallowed inside a callback (weakref, __del__)
+        # must fire again.
+        old_handler = signal.signal(signal.SIGVTALRM, _alarm)
+        signal.setitimer(signal.ITIMER_VIRTUAL, wall, 1.0)
     try:
         np.seterr(all='ignore')
         import warnings
@@ -527,8 +538,8 @@ def execute(case, monitors=(), scratch=None, wall=None, keep_world=False):
                 res['traceback']
     finally:
         if wall:
-            signal.setitimer(signal.ITIMER_REAL, 0)
-            signal.signal(signal.SIGALRM, old_handler)
+            signal.setitimer(signal.ITIMER_VIRTUAL, 0)
+            signal.signal(signal.SIGVTALRM, old_handler)
     if world is not None:
         res['events_digest'] = digest.digest(world.events)
         res['n_events'] = len(world.events)
